@@ -33,6 +33,7 @@ def run(ctx):
         ok = "result" in r
         ctx.case(repr(oracles.job_key(job)), nontrivial=ok and len(r["result"]["evolution"]) >= 3, kind=f"{job['kind']}:{job['minmax']}:{job['mode']}:{'ok' if ok else 'raised'}")
     oracles.check_c17(ctx, results, set(names))
+    oracles.check_skeleton_conformance(ctx, results, getattr(ctx, "facts", {}).get("steps", {}).get("classes", {}))
     ctx.extra["elitist_proved"] = sorted(d["proved"])
     ctx.extra["elitist_reviewed_correspondence_only"] = sorted(d.get("reviewed", {}))
     for r in results[:2]:
